@@ -137,6 +137,28 @@ NOT_APPLICABLE = {
 PENDING_REASON = "static rules for this property are designed (DESIGN.md section 6) but not yet registered in this commit; no check is claimed until it is green and validated against mutants"
 
 
+def rule_list(pid, text):
+    """Replaces the hand-written '(Cnn.a-Cnn.b plus the shared clauses ...)' of a level text by
+    the rule ids the evidence of the last run actually lists, so the manifest cannot lag behind."""
+    import os, re
+    f = f"/verif/evidence/{pid}.json"
+    if not os.path.exists(f):
+        return text
+    ev = json.load(open(f))
+    ids = []
+    for r in ev.get("coverage", {}).get("rules", []):
+        if re.fullmatch(r"C\d\d\.\d+", r["id"]) and r["id"] not in ids:
+            ids.append(r["id"])
+    key = lambda i: (i[:3], int(i[4:]))
+    own = sorted([i for i in ids if i.startswith(pid + ".")], key=key)
+    shared = sorted([i for i in ids if not i.startswith(pid + ".")], key=key)
+    if not own:
+        return text
+    repl = "(rules " + ", ".join(own) + ("; shared clauses " + ", ".join(shared) if shared else "") + ")"
+    new, n = re.subn(r"\(C\d\d\.\d+[^()]*\)", repl, text, count=1)
+    return new if n else text + " " + repl
+
+
 def main():
     props = [json.loads(l)["id"] for l in open("/verif/properties.jsonl")]
     checks = []
@@ -144,6 +166,7 @@ def main():
         if pid not in CLAIMS:
             continue
         tech, text, note, ref = CLAIMS[pid]
+        text = rule_list(pid, text)
         checks.append({
             "property_id": pid,
             "quick_cmd": f"./run.sh {pid} quick",
